@@ -75,6 +75,14 @@ func RegularBin(g *Gen) string {
 	return s[:i] + bin + s[i:]
 }
 
+// RegularMark is Regular with redaction-marker runes inside a word ("quota ‹soft› exceeded").
+func RegularMark(g *Gen) string {
+	s := Regular(g)
+	m := []string{"‹", "›", "‹x›", "›‹"}[g.R.Intn(4)]
+	i := strings.Index(s, "zq") + 1
+	return s[:i] + m + s[i:]
+}
+
 var hostileParts = []string{"‹", "›", "\n", "", "\x00", "\xff\xfe", "%s", "%d", "%!v(X)", "‹x›", "›‹", "\n\n", " ", ": ", "?", "×", "‹×›", "a", "\t", "\r", "‹\n›", "%w", "\\"}
 
 // Hostile strings: marker runes, newlines at any position, NUL,
